@@ -23,9 +23,9 @@ import (
 func init() {
 	core.Register(&core.Prop{
 		ID: "C12", Level: "exploration",
-		Rule: "cases are byte streams of 1-40 messages (30 B - 20 KB) with 0-5 KB garbage separators, one third of them hostile (truncated, zero/negative/huge/missing lengths, 9= before 8=, 10= inside data), each read under 12-40 partitions; non-trivial = stream with a message crossing a buffer refill boundary (larger than 4096 or split by a cut); distinct by (message size classes, hostile kind)",
+		Rule:        "cases are byte streams of 1-40 messages (30 B - 20 KB) with 0-5 KB garbage separators, one third of them hostile (truncated, zero/negative/huge/missing lengths, 9= before 8=, 10= inside data), each read under 12-40 partitions; non-trivial = stream with a message crossing a buffer refill boundary (larger than 4096 or split by a cut); distinct by (message size classes, hostile kind)",
 		Assumptions: []string{"readers never return (0, nil)"},
-		FloorQuick: 200, FloorThorough: 2000,
+		FloorQuick:  200, FloorThorough: 2000,
 		Parts: []core.Part{{Name: "framing", Run: run, Replay: replay}},
 	})
 }
